@@ -113,14 +113,22 @@ func sortOf(t types.Type) Sort {
 	case *types.Pointer:
 		if n, ok := u.Elem().(*types.Named); ok {
 			if _, isStruct := n.Underlying().(*types.Struct); isStruct {
-				return aliasSort("P." + n.Obj().Pkg().Name() + "_" + n.Obj().Name() + ".")
+				a := aliasSort("P." + n.Obj().Pkg().Name() + "_" + n.Obj().Name() + ".")
+				if _, ok := aliasTags[a]; !ok {
+					aliasTags[a] = tagOf(u.Elem())
+				}
+				return a
 			}
 		}
 		return SInt
 	case *types.Map:
 		nm := shortTypeName(t)
 		nm = strings.NewReplacer(".", "_", "/", "_").Replace(nm)
-		return aliasSort("M." + nm + ".")
+		a := aliasSort("M." + nm + ".")
+		if _, ok := aliasTags[a]; !ok {
+			aliasTags[a] = tagOf(t)
+		}
+		return a
 	case *types.Chan, *types.Signature:
 		return SInt
 	case *types.Slice:
@@ -138,6 +146,9 @@ func sortOf(t types.Type) Sort {
 	}
 	return SInt
 }
+
+// aliasTags: allocation type tag of the objects an alias-sorted reference points to.
+var aliasTags = map[Sort]*Term{}
 
 func aliasSort(name string) Sort {
 	srt := Sort(name)
